@@ -1330,6 +1330,12 @@ func (i *indexImpl) Close() error {
 	i.mutex.Lock()
 	defer i.mutex.Unlock()
 
+	if !i.open {
+		// already closed: closing the underlying index again would panic
+		// (scorch closes its close channel)
+		return ErrorIndexClosed
+	}
+
 	indexStats.UnRegister(i)
 
 	i.open = false
